@@ -1034,3 +1034,7 @@ mut('c12-flat-filter-in-loop', 'C12', ['C12.3'], M,
     "            include=include,",
     'flat_list judges raise_if_none over results of any shape')
 MUTANTS[:] = [m for m in MUTANTS if m is not None]
+mut('c17-skip-incomplete', 'C17', ['C17.5'], S,
+    "        if not self.wal_path:\n            return None\n\n        try:\n            event_json",
+    "        if not self.wal_path:\n            return None\n        if event.event_status != 'completed':\n            return None\n\n        try:\n            event_json",
+    'events that are not complete yet when processed get no WAL line')
